@@ -48,6 +48,8 @@
     pub(crate) fn make_addition_chain(chain: &mut [i8; 32], k: u64) -> (r: usize)
         ensures
             1 <= r,
+            // a return means every store was in bounds (the stores themselves are the obligations of finding F2b)
+            r <= 32,
             k == 0 ==> r == 1 && final(chain)@[0] == 0,
             k != 0 && r <= 32 ==> chain_value(final(chain)@, r as int) == k as int
                 && final(chain)@[r - 1] % 2 == 1 && 1 <= final(chain)@[r - 1] <= 7
